@@ -50,6 +50,7 @@ def check(rep: Report, ctx: Ctx) -> None:
     r96(rep, ctx, sql)
     r97(rep, ctx, sql)
     r99(rep, ctx)
+    r910(rep, ctx)
 
 
 def r91_92(rep: Report, ctx: Ctx) -> None:
@@ -519,3 +520,13 @@ def r99(rep: Report, ctx: Ctx) -> None:
             for v in vals)
     rep.ob("R9.9", "stream_data receives find_unique_graphs() (or None)", ok,
            fi=top, node=calls[0], detail=f"stream_data({unparse(a)})")
+
+
+def r910(rep: Report, ctx: Ctx) -> None:
+    """(= C11 R11.8)  The candidate window is computed from the bounds that
+    ingestion tracked; a cleaning step that moves them shifts the window
+    between the trim and the unique-graph search (seed C09-g)."""
+    rep.rule("R9.10", "only save_data moves the bounds the candidate window "
+             "is computed from (= C11 R11.8)", 1)
+    from .c11 import bounds_writers
+    bounds_writers(rep, ctx, "R9.10")
